@@ -237,6 +237,12 @@ def frame_level(ctx, b, d):
             o["size"] = [n or 5, 123, 1 << 32, (1 << 64) - 1][(i // 4) % 4]
         inp = fl.input_for(rnd, n, rnd.choice(["text", "random"]))
         cases.append({"id": i + 1, "input": inp, "opts": o, "calls": [{"op": "write", "n": n}, {"op": "close"}]})
+    # ReadFrom of an exact multiple of the block size ends with an EMPTY block: its checksum field is XXH32 of no bytes
+    for n in (0, 65536, 131072):
+        for conc in (1, 4):
+            cases.append({"id": len(cases) + 1, "input": fl.input_for(rnd, n, "text"),
+                          "opts": {"code": 4, "bcs": True, "ccs": conc == 1, "level": 0, "conc": conc, "legacy": False, "handler": False},
+                          "calls": [{"op": "readfrom", "n": 0}, {"op": "close"}]})
     recs, faults = fl.shard_run(b, "frame-write", cases, d, "c13w")
     if faults:
         raise vlib.MachineryFault("frame-write failed: %s" % faults[0]["stderr"][-500:])
